@@ -3,6 +3,7 @@ package object
 import (
 	"bytes"
 	"fmt"
+	"sort"
 	"strings"
 )
 
@@ -19,17 +20,15 @@ func (o *Obj) String() string {
 
 	out.WriteString("{")
 
-	idx := 0
-	last := len(o.Pairs) - 1
+	keys := o.sortedKeys()
+	last := len(keys) - 1
 
-	for key, pair := range o.Pairs {
-		out.WriteString(key + ": " + pair.String())
+	for idx, key := range keys {
+		out.WriteString(key + ": " + o.Pairs[key].String())
 
 		if idx != last {
 			out.WriteString(", ")
 		}
-
-		idx++
 	}
 
 	out.WriteString("}")
@@ -48,17 +47,31 @@ func (o *Obj) Dump(ident int) string {
 
 	insideSpaces := strings.Repeat("  ", ident)
 
-	for key, pair := range o.Pairs {
+	for _, key := range o.sortedKeys() {
 		out.WriteString(insideSpaces)
 		out.WriteString(`<span class="textwire-prop">"` + key + `"</span>`)
 		out.WriteString(": ")
-		out.WriteString(pair.Dump(ident))
+		out.WriteString(o.Pairs[key].Dump(ident))
 		out.WriteString(",\n")
 	}
 
 	out.WriteString(spaces + "<span class='textwire-brace'>}</span>")
 
 	return out.String()
+}
+
+// sortedKeys returns the keys in the alphabetical order,
+// to print the object the same way every time
+func (o *Obj) sortedKeys() []string {
+	keys := make([]string, 0, len(o.Pairs))
+
+	for key := range o.Pairs {
+		keys = append(keys, key)
+	}
+
+	sort.Strings(keys)
+
+	return keys
 }
 
 func (o *Obj) Val() any {
